@@ -529,6 +529,23 @@ PubKeyChecks(e) ==
     Chk("C01", "signature_bound_to_message", ~r.verifies_other_msg),
     Chk("C01", "signature_form", KBase(e.kt) = "var" \/ (Len(r.sig) = 64 /\ (secp => LowS(r.sig))))>>
 
+\* the public-key parsers of the single-scheme key types: they accept exactly the valid keys (33-byte compressed
+\* form for secp256k1; other lengths the back-ends may or may not support are left open), re-encode to the compressed
+\* form, and give the node id of the independent derivation
+DecPubChecks(e) ==
+  LET F == e.facts  n == Len(e.bytes)
+      secpOne(o, name) ==
+        <<Chk("C11", "public_key_parser_accepts_valid_keys:" \o name, (n = 33 /\ F.secp_valid /\ F.secp_valid2) => o # <<>>),
+          Chk("C11", "public_key_parser_refuses_invalid_keys:" \o name, (~F.secp_valid /\ ~F.secp_valid2) => o = <<>>),
+          Chk("C11", "public_key_reencodes_compressed:" \o name, (o # <<>> /\ F.secp_valid) => o[1].enc = F.secp_compressed),
+          Chk("C10", "node_id_of_parsed_key:" \o name, (o # <<>> /\ F.secp_valid) => o[1].nid = F.secp_nid)>>
+  IN <<Chk("C03", "public_key_parser_panics", e.panics = <<>>),
+       Chk("TOOL", "secp_oracles_agree_on_33_bytes", n = 33 => F.secp_valid = F.secp_valid2)>>
+     \o secpOne(e.k256, "k256") \o secpOne(e.libsecp, "libsecp")
+     \o <<Chk("C11", "secp_back_ends_agree_on_compressed_keys", n = 33 => (e.k256 = e.libsecp)),
+          Chk("C11", "ed25519_parser_accepts_exactly_valid_keys", (e.ed # <<>>) = F.ed_valid),
+          Chk("C10", "node_id_of_parsed_ed25519_key", e.ed # <<>> => (e.ed[1].enc = e.bytes /\ e.ed[1].nid = F.ed_nid))>>
+
 KeyGenChecks(e) ==
   <<Chk("C03", "keygen_panics", e.panics = <<>>),
     Chk("C17", "generated_secret_is_valid", IF e.scheme = "secp" THEN ValidScalar(e.export) ELSE Len(e.export) = 32),
@@ -555,6 +572,7 @@ ChecksOf(e) ==
     [] e.t = "enclist"   -> EncListChecks(e)
     [] e.t = "pubkey"    -> PubKeyChecks(e)
     [] e.t = "keygen"    -> KeyGenChecks(e)
+    [] e.t = "decpub"    -> DecPubChecks(e)
     [] OTHER             -> <<>>
 
 Bind(rs, h, c) == IF h = "" THEN rs ELSE (h :> c) @@ rs
